@@ -513,7 +513,7 @@ def launch(ctx, exe, tag, ranks, cores, lines, timeout):
     open(script, 'w').write('\n'.join(lines) + '\n')
     cmd = [exe, script, prefix, str(cores)]
     if ranks > 1:
-        cmd = ['mpiexec', '--oversubscribe', '-n', str(ranks)] + cmd
+        cmd = ['mpiexec', '--oversubscribe', '--bind-to', 'none', '-n', str(ranks)] + cmd
     rc, out, err = 1, '', ''
     for attempt in range(2):
         for r in range(ranks):
@@ -563,6 +563,10 @@ def analyse(ctx, res, run, dist, jdf_edges, from_corpus=False):
     if ctx.driver_ok and all_ops:
         rc, model, err = pv.run_driver('pv_C22', all_ops)
         dis = pv.compare(all_ops, all_impl, model)
+        # `clog2 n`: the model is the exact ceiling; where the C double expression differs, the oracle below reports the
+        # defect with its own key (depth-expression-float-error) for exactly that n, so it is not repeated as a disagreement
+        dis = [d for d in dis if not (d['op'].startswith('clog2 ') and d['impl'].isdigit() and d['model'].isdigit()
+                                      and int(d['model']) == true_clog2(int(d['op'].split()[1])))]
         for d in dis:
             d['launch'] = {'ranks': run['ranks'], 'cores': run['cores'], 'rank': owners[d['index']] if d['index'] < len(owners) else None}
         res.disagreements += dis[:10]
